@@ -4,8 +4,14 @@
 //	range       a `for … range X` whose X has a map type (go/types; d2 packages are type-checked from the tree
 //	            under test, the standard library from GOROOT source, third-party imports are left opaque)
 //	range?      a `range X` whose type could not be resolved (opaque third-party value) — must be classified too
-//	globalwrite an assignment / inc-dec / delete / append whose target is rooted at a package-level variable,
+//	globalwrite an assignment / inc-dec / delete / mutating method call whose target is rooted at a package-level
+//	            variable of this or another d2 package,
 //	            outside `init` and outside package-level initialisers
+//	aliaswrite  a package-level variable of slice / map / pointer type is copied into a local (`x := G`) and the same
+//	            function writes through that local (`x[i] = …`, `x.f = …`, `*x = …`, `x[i]++`): the write lands in the
+//	            shared backing store
+//	goroutine   a `go` statement, or `.Go(` / `.Add(` / `.Wait(` on a sync.WaitGroup / errgroup.Group: concurrency
+//	            inside one compilation or render
 //
 // Output: lean/D2V/Gen/MapRanges.lean — `def mapRangeSites : List Site`; a site is identified by group, kind,
 // file, enclosing function and the expression text — never by a line number.  D2V/Props/C08.lean holds the
@@ -184,16 +190,54 @@ func gen(t *tl.T) {
 				continue
 			}
 			seenPkg++
-			isGlobal := func(id *ast.Ident) bool {
+			pkgVar := func(id *ast.Ident) *types.Var {
 				if id == nil {
+					return nil
+				}
+				v, ok := pi.info.Uses[id].(*types.Var)
+				if !ok || v.Pkg() == nil || v.Parent() != v.Pkg().Scope() {
+					return nil
+				}
+				return v
+			}
+			isPkgName := func(e ast.Expr) bool {
+				id, ok := e.(*ast.Ident)
+				if !ok {
 					return false
 				}
-				obj := pi.info.Uses[id]
-				v, ok := obj.(*types.Var)
-				if !ok || v.Pkg() == nil {
+				_, isPkg := pi.info.Uses[id].(*types.PkgName)
+				return isPkg
+			}
+			// the package-level variable (of this or another d2 package) an expression is rooted at:
+			// a.b[c].d → a; pkg.V[i] → V
+			var globalOf func(e ast.Expr) *types.Var
+			globalOf = func(e ast.Expr) *types.Var {
+				switch x := e.(type) {
+				case *ast.Ident:
+					return pkgVar(x)
+				case *ast.SelectorExpr:
+					if isPkgName(x.X) {
+						return pkgVar(x.Sel)
+					}
+					return globalOf(x.X)
+				case *ast.IndexExpr:
+					return globalOf(x.X)
+				case *ast.StarExpr:
+					return globalOf(x.X)
+				case *ast.ParenExpr:
+					return globalOf(x.X)
+				}
+				return nil
+			}
+			refType := func(ty types.Type) bool {
+				if ty == nil {
 					return false
 				}
-				return v.Parent() == v.Pkg().Scope()
+				switch ty.Underlying().(type) {
+				case *types.Slice, *types.Map, *types.Pointer:
+					return true
+				}
+				return false
 			}
 			for i, f := range pi.files {
 				file := pi.names[i]
@@ -203,14 +247,61 @@ func gen(t *tl.T) {
 						continue
 					}
 					fn := funcName(fd)
+					isInit := fd.Name.Name == "init" && fd.Recv == nil
 					add := func(kind string, e ast.Node) {
 						sites = append(sites, site{g.name, kind, file, fn, t.Src(e), ""})
 					}
 					addBody := func(kind string, e ast.Node, body ast.Node) {
 						sites = append(sites, site{g.name, kind, file, fn, t.Src(e), t.Src(body)})
 					}
+					// locals that alias a package-level variable of reference type (`x := G`, `x = pkg.G`)
+					alias := map[types.Object]string{}
+					ast.Inspect(fd.Body, func(n ast.Node) bool {
+						as, ok := n.(*ast.AssignStmt)
+						if !ok || len(as.Lhs) != len(as.Rhs) {
+							return true
+						}
+						for k, r := range as.Rhs {
+							var gv *types.Var
+							switch rr := r.(type) {
+							case *ast.Ident:
+								gv = pkgVar(rr)
+							case *ast.SelectorExpr:
+								if isPkgName(rr.X) {
+									gv = pkgVar(rr.Sel)
+								}
+							}
+							if gv == nil || !refType(gv.Type()) {
+								continue
+							}
+							if id, ok := as.Lhs[k].(*ast.Ident); ok && pkgVar(id) == nil {
+								obj := pi.info.Defs[id]
+								if obj == nil {
+									obj = pi.info.Uses[id]
+								}
+								if obj != nil {
+									alias[obj] = t.Src(as)
+								}
+							}
+						}
+						return true
+					})
+					writesThrough := func(l ast.Expr) string {
+						switch l.(type) {
+						case *ast.IndexExpr, *ast.SelectorExpr, *ast.StarExpr:
+						default:
+							return ""
+						}
+						id := rootIdent(l)
+						if id == nil {
+							return ""
+						}
+						return alias[pi.info.Uses[id]]
+					}
 					ast.Inspect(fd.Body, func(n ast.Node) bool {
 						switch x := n.(type) {
+						case *ast.GoStmt:
+							add("goroutine", x.Call.Fun)
 						case *ast.RangeStmt:
 							tv, ok := pi.info.Types[x.X]
 							if !ok || tv.Type == nil || tv.Type == types.Typ[types.Invalid] {
@@ -219,34 +310,52 @@ func gen(t *tl.T) {
 								addBody("range", x.X, x.Body)
 							}
 						case *ast.AssignStmt:
-							if fd.Name.Name == "init" && fd.Recv == nil {
-								return true
-							}
-							if x.Tok == token.DEFINE {
+							if isInit || x.Tok == token.DEFINE {
 								return true
 							}
 							for _, l := range x.Lhs {
-								if isGlobal(rootIdent(l)) {
+								if globalOf(l) != nil {
 									add("globalwrite", l)
+								} else if src := writesThrough(l); src != "" {
+									sites = append(sites, site{g.name, "aliaswrite", file, fn, src, ""})
 								}
 							}
 						case *ast.IncDecStmt:
-							if fd.Name.Name == "init" && fd.Recv == nil {
+							if isInit {
 								return true
 							}
-							if isGlobal(rootIdent(x.X)) {
+							if globalOf(x.X) != nil {
 								add("globalwrite", x.X)
+							} else if src := writesThrough(x.X); src != "" {
+								sites = append(sites, site{g.name, "aliaswrite", file, fn, src, ""})
 							}
 						case *ast.CallExpr:
-							if fd.Name.Name == "init" && fd.Recv == nil {
+							if isInit {
 								return true
 							}
-							if id, ok := x.Fun.(*ast.Ident); ok && id.Name == "delete" && len(x.Args) > 0 && isGlobal(rootIdent(x.Args[0])) {
+							if id, ok := x.Fun.(*ast.Ident); ok && id.Name == "delete" && len(x.Args) > 0 && globalOf(x.Args[0]) != nil {
 								add("globalwrite", x)
 							}
+							se, ok := x.Fun.(*ast.SelectorExpr)
+							if !ok {
+								return true
+							}
 							// mutating method on a package-level container (sync maps, registries, buffers)
-							if se, ok := x.Fun.(*ast.SelectorExpr); ok && mutators[se.Sel.Name] && isGlobal(rootIdent(se.X)) {
+							if mutators[se.Sel.Name] && globalOf(se.X) != nil {
 								add("globalwrite", x.Fun)
+							}
+							// goroutine fan-out through sync.WaitGroup / errgroup.Group
+							if se.Sel.Name == "Go" || se.Sel.Name == "Add" || se.Sel.Name == "Wait" {
+								ts := ""
+								if tv, ok := pi.info.Types[se.X]; ok && tv.Type != nil {
+									ts = tv.Type.String()
+								}
+								if strings.Contains(ts, "sync.WaitGroup") || strings.Contains(ts, "errgroup.Group") {
+									add("goroutine", x.Fun)
+								} else if (ts == "" || ts == "invalid type") && se.Sel.Name == "Go" {
+									// errgroup lives in an opaque third-party module: `<anything>.Go(func…)` of unknown type
+									add("goroutine", x.Fun)
+								}
 							}
 						}
 						return true
@@ -289,18 +398,12 @@ func gen(t *tl.T) {
 		t.P("  ⟨%s, %s, %s, %s, %s, %d, %d⟩%s\n", tl.LeanString(k.group), tl.LeanString(k.kind), tl.LeanString(k.file), tl.LeanString(k.fn), tl.LeanString(k.expr), fnv(k.body), count[k], sep)
 	}
 	t.P("]\n\nend D2V.Gen.MapRanges\n")
-	nr, ng, nu := 0, 0, 0
+	cnt := map[string]int{}
 	for _, k := range keys {
-		switch k.kind {
-		case "range":
-			nr++
-		case "range?":
-			nu++
-		default:
-			ng++
-		}
+		cnt[k.kind]++
 	}
-	t.Fact("MapRanges: %d map-range sites, %d unresolved-type range sites, %d package-level write sites in %d packages", nr, nu, ng, seenPkg)
+	t.Fact("MapRanges: %d map-range sites, %d unresolved-type range sites, %d package-level write sites, %d alias-write sites, %d goroutine sites in %d packages",
+		cnt["range"], cnt["range?"], cnt["globalwrite"], cnt["aliaswrite"], cnt["goroutine"], seenPkg)
 }
 
 func fnv(s string) uint32 {
